@@ -3,5 +3,6 @@
    N / positive / nat stay the extracted inductive datatypes. *)
 From Coq Require Import Extraction ExtrOcamlBasic.
 From KV Require Import Base Chan Atomic.
+From KV.proofs Require Import Inv.
 Set Extraction Output Directory ".".
-Extraction "kmodel.ml" astep init arun res_received.
+Extraction "kmodel.ml" astep init arun res_received invb.
